@@ -489,6 +489,9 @@ def oracle_edit_ref(case, out):
     bad = []
     for s in edits_of(out):
         o = s["res"][1]["trace"]
+        if s["res"][1].get("args_ok") is False:
+            bad.append(("after an edit: the new trace does not hold the arguments of the edit",
+                        {"req": s["req"], "args": s["args"], "trace_args": s["res"][1].get("trace_args")}))
         c2 = dict(case); c2["args"] = s["args"]
         r = ref_of(c2, o)
         if r is None:
@@ -520,7 +523,7 @@ KINDS = {
 }
 # direct oracles of each property (combinator properties: everything the program text defines, on their programs)
 PROP_ORACLES = {"C02": ["C02", "edit_ref"],     # "the score of its traces": edited traces are traces too
-                "C05": ["C05", "edit_ref"], "C06": ["C06"], "C07": ["C07", "edit_ref"],
+                "C05": ["C05", "edit_ref"], "C06": ["C06", "edit_ref"], "C07": ["C07", "edit_ref"],
                 "C11": ["all"], "C12": ["all"], "C13": ["all"], "C14": ["all"], "C15": ["all"], "C16": ["all"]}
 # combinator-specific properties look at every step of the programs that contain the combinator
 CONTAINS = {
